@@ -203,3 +203,47 @@ Proof.
   unfold chk_edges_observed, edges_are_observed. cbn zeta. rewrite andb_true_iff, !incl_dnab_iff.
   split; [intros [A B] w; split; auto|]. intro H. split; intros x Hx; now apply H.
 Qed.
+
+(* ------------------------------------------------------------------ pruned tables *)
+Lemma key_in_iff' keys x : key_in keys x = true <-> In x keys.
+Proof. unfold key_in. apply existsb_dna. Qed.
+Lemma nth_error_combine {A B} : forall (l : list A) (l' : list B) i a b,
+  nth_error l i = Some a -> nth_error l' i = Some b -> nth_error (combine l l') i = Some (a, b).
+Proof.
+  induction l as [|x l IH]; intros [|y l'] [|i] a b H1 H2; cbn in *; try discriminate.
+  - congruence.
+  - now apply IH.
+Qed.
+Lemma chk_pruned_with_sound stranded keep k e e' : chk_pruned_with stranded keep k e e' = true ->
+  (e' < 256)%N /\ forall d b, (b < 4)%N -> e_has_ext e' (dirb d) b = e_has_ext e (dirb d) b && keep (canon_s stranded (extend k b d)).
+Proof.
+  unfold chk_pruned_with. rewrite andb_true_iff, N.ltb_lt, forallb_forall. intros [L X]. split; [exact L|].
+  intros d b Hb. specialize (X d (in_sides d)). rewrite forallb_forall in X. specialize (X b (proj2 (in_bases b) Hb)).
+  now apply eqb_prop in X.
+Qed.
+Theorem chk_pruned_sound stranded (tbl : list (dna * N)) new : chk_pruned stranded tbl new = true ->
+  length new = length tbl /\
+  forall i k e e', nth_error tbl i = Some (k, e) -> nth_error new i = Some e' ->
+    (e' < 256)%N /\ forall d b, (b < 4)%N ->
+      (e_has_ext e' (dirb d) b = true <-> e_has_ext e (dirb d) b = true /\ In (canon_s stranded (extend k b d)) (map fst tbl)).
+Proof.
+  unfold chk_pruned. cbn zeta. rewrite andb_true_iff, Nat.eqb_eq, forallb_forall. intros [L X]. split; [exact L|].
+  intros i k e e' H1 H2. pose proof (nth_error_combine _ _ _ _ _ H1 H2) as H. apply nth_error_In in H.
+  specialize (X _ H). cbn [fst snd] in X. apply chk_pruned_with_sound in X as [L' B]. split; [exact L'|].
+  intros d b Hb. rewrite (B d b Hb), andb_true_iff, key_in_iff'. reflexivity.
+Qed.
+Theorem chk_pruned_sharded_sound stranded (tbl : list (dna * N)) all_kmers new :
+  chk_pruned_sharded stranded tbl all_kmers new = true ->
+  length new = length tbl /\
+  forall i k e e', nth_error tbl i = Some (k, e) -> nth_error new i = Some e' ->
+    (e' < 256)%N /\ forall d b, (b < 4)%N ->
+      (e_has_ext e' (dirb d) b = true <->
+       e_has_ext e (dirb d) b = true /\
+       ~ (In (canon_s stranded (extend k b d)) all_kmers /\ ~ In (canon_s stranded (extend k b d)) (map fst tbl))).
+Proof.
+  unfold chk_pruned_sharded. cbn zeta. rewrite andb_true_iff, Nat.eqb_eq, forallb_forall. intros [L X]. split; [exact L|].
+  intros i k e e' H1 H2. pose proof (nth_error_combine _ _ _ _ _ H1 H2) as H. apply nth_error_In in H.
+  specialize (X _ H). cbn [fst snd] in X. apply chk_pruned_with_sound in X as [L' B]. split; [exact L'|].
+  intros d b Hb. rewrite (B d b Hb), andb_true_iff, orb_true_iff, negb_true_iff. rewrite <- !key_in_iff'.
+  destruct (key_in (map fst tbl) _), (key_in all_kmers _); intuition congruence.
+Qed.
